@@ -75,7 +75,7 @@ PROPS = {
             "Adapters hold no state, so one step covers executions of any length. Scripted Vec client: every script of "
             "length <=3, every position: sends exactly the next entry, advances by one, nothing after the end."
         ),
-        "bounds": {"commands_per_handler": "0..=2", "nesting": "<=3", "script_len": "0..=3", "alphabets": "u8 timers/randoms; u8 / RegisterMsg<u64,char,u8> / WORegisterMsg<u64,char,u8> messages; Id over all usize", "unwind": 4},
+        "bounds": {"commands_per_handler": "0..=2 (quick: 3 command scripts per adapter x event - none, Send+SetTimer, ChooseRandom+CancelTimer; thorough: 5)", "nesting": "<=3", "script_len": "0..=3", "alphabets": "u8 timers/randoms; u8 / RegisterMsg<u64,char,u8> / WORegisterMsg<u64,char,u8> messages; Id over all usize", "unwind": 4},
         "outside": ["isomorphism of whole reachable state spaces (follows from the step lemma; not re-checked by running a checker)", "Choice nestings deeper than 3", "ChooseRandom keys other than 1-byte strings"],
         "assumptions": COMMON_ASSUME,
     },
